@@ -72,6 +72,10 @@ const char* linearizable(int init, int final_value)
                         okk = (s != h.arg) && (h.res == s);
                     }
                     break;
+                case HK_MAYBE_WRITE:
+                    // an operation that failed with an exception may or may not have written
+                    if (sp < 4095) stack[sp++] = Frame{f.mask | (1 << i), h.arg};
+                    break;
                 default:
                     break;
             }
@@ -319,6 +323,7 @@ void add_for_mutex(std::vector<Instance>& out, const char* mn, bool exclusive_on
             int hi = h_begin(MODIFY);
             int pre = -1;
             w.modify([&](Pair& x) {
+                may_throw(hx::SITE_FUNC);
                 hx::WriteWin win(&x, "modify functor");
                 pre = x.a;
                 ++x.a;
@@ -331,6 +336,7 @@ void add_for_mutex(std::vector<Instance>& out, const char* mn, bool exclusive_on
             W& w = *(W*)p;
             int hi = h_begin(MODIFY_RET);
             int pre = w.modify([&](Pair& x) {
+                may_throw(hx::SITE_FUNC);
                 hx::WriteWin win(&x, "modify functor");
                 int v = x.a;
                 ++x.a;
@@ -345,6 +351,7 @@ void add_for_mutex(std::vector<Instance>& out, const char* mn, bool exclusive_on
             int hi = h_begin(READ);
             int v = -1;
             w.read([&](const Pair& x) {
+                may_throw(hx::SITE_FUNC);
                 v = hx::read_pair(x, "read functor");
             });
             h_end(hi, HK_READ, 0, v);
@@ -352,7 +359,10 @@ void add_for_mutex(std::vector<Instance>& out, const char* mn, bool exclusive_on
         in.ops[READ_RET] = [](void* p, int) {
             const W& w = *(const W*)p;
             int hi = h_begin(READ_RET);
-            int v = w.read([&](const Pair& x) { return hx::read_pair(x, "read functor"); });
+            int v = w.read([&](const Pair& x) {
+                may_throw(hx::SITE_FUNC);
+                return hx::read_pair(x, "read functor");
+            });
             h_end(hi, HK_READ, 0, v);
         };
         out.push_back(in);
